@@ -283,78 +283,98 @@ def _fill_value(node, env):
 def action_and_edge_ranges(ctx):
     chk, repo = ctx.chk, ctx.repo
     single = repo.find_class("SingleJobShopGraphEnv")
-    init = ctx.norm.flat(single.methods["__init__"])
-    env = {}
-    # module-level numeric constants (named sentinels such as ANY_MACHINE = -1)
-    for name, v in getattr(init.module, "assigns", {}).items():
-        if isinstance(v, ast.Constant) and isinstance(v.value, (int, float)) and not isinstance(v.value, bool):
-            env[name] = v
-        elif isinstance(v, ast.UnaryOp) and isinstance(v.op, ast.USub) and isinstance(v.operand, ast.Constant):
-            env[name] = v
-    for n in own_nodes(init.node):
-        if isinstance(n, ast.Assign) and isinstance(n.targets[0], ast.Name):
-            env[n.targets[0].id] = n.value
-        elif isinstance(n, ast.AnnAssign) and isinstance(n.target, ast.Name) and n.value is not None:
-            env[n.target.id] = n.value
-        elif (
-            isinstance(n, ast.Assign) and isinstance(n.targets[0], ast.Tuple) and isinstance(n.value, ast.Tuple)
-            and len(n.targets[0].elts) == len(n.value.elts) and all(isinstance(t, ast.Name) for t in n.targets[0].elts)
-        ):
-            for t, v in zip(n.targets[0].elts, n.value.elts):
-                env[t.id] = v
-    md = [
-        c for c in _space_calls(init, "MultiDiscrete")
-    ]
-    act = None
-    for n in own_nodes(init.node):
-        if isinstance(n, ast.Assign) and any(isinstance(t, ast.Attribute) and t.attr == "action_space" for t in n.targets):
-            act = n.value
-        elif isinstance(n, ast.AnnAssign) and isinstance(n.target, ast.Attribute) and n.target.attr == "action_space" and n.value is not None:
-            act = n.value
-    if not (isinstance(act, ast.Call) and (dotted(act.func) or "").endswith("MultiDiscrete")):
-        raise AnalysisError("SingleJobShopGraphEnv: action_space declaration not recognised")
-    nvec = _fill_value(act.args[0] if act.args else None, env)
-    start = None
-    for k in act.keywords:
-        if k.arg == "start":
-            start = _fill_value(k.value, env)
-        if k.arg == "nvec":
-            nvec = _fill_value(k.value, env)
-    if nvec is None or len(nvec) != 2:
-        raise AnalysisError("action_space: nvec is not a two-component literal")
-    if start is None:
-        start = [ast.Constant(0), ast.Constant(0)]
-    need = [
-        ("job", {1: 0}, {"num_jobs": 1, 1: -1}, "job ids 0..num_jobs-1"),
-        ("machine", {1: -1}, {"num_machines": 1, 1: -1}, "-1 (single-machine sentinel) and machine ids 0..num_machines-1"),
-    ]
-    for i, (what, lo_need, hi_need, txt) in enumerate(need):
-        nvs, sts = alternatives(nvec[i], env), alternatives(start[i], env)
-        if nvs is None or sts is None:
-            raise AnalysisError(f"action_space component {i}: not a (conditional) linear expression")
-        bad = None
-        shown = None
-        for nv in nvs:
-            for st in sts:
-                if not set(st) <= {1}:
-                    raise AnalysisError("action_space start is symbolic")
-                hi = sub({**nv, 1: nv.get(1, 0) + st.get(1, 0)}, {1: 1})
-                shown = (st, hi)
-                ok_lo = nonneg(sub(lo_need, st))
-                ok_hi = nonneg(sub(hi, hi_need))
-                if not (ok_lo and ok_hi) and bad is None:
-                    bad = (st, hi, ok_lo)
-        if bad is None:
-            st, hi = shown
-            chk.ok("R18.b", init.qualname, init.loc(act), f"{what} component [{fmt(st)}, {fmt(hi)}] ⊇ {txt}" + (" (all conditional alternatives)" if len(nvs) * len(sts) > 1 else ""))
-        else:
-            st, hi, ok_lo = bad
-            chk.violation(
-                "R18.b", init, act,
-                f"action space {what} component can be [{fmt(st)}, {fmt(hi)}] but legal decisions need {txt}: "
-                + ("the lowest legal value is excluded" if not ok_lo else f"the legal {what} id {fmt(hi_need)} is not in the declared space"),
-                loc=init.loc(act),
-            )
+    def judge_action_space(init, required=True):
+        """the declared action space of one environment class contains every legal decision"""
+        env = {}
+        # module-level numeric constants (named sentinels such as ANY_MACHINE = -1)
+        for name, v in getattr(init.module, "assigns", {}).items():
+            if isinstance(v, ast.Constant) and isinstance(v.value, (int, float)) and not isinstance(v.value, bool):
+                env[name] = v
+            elif isinstance(v, ast.UnaryOp) and isinstance(v.op, ast.USub) and isinstance(v.operand, ast.Constant):
+                env[name] = v
+        for n in own_nodes(init.node):
+            if isinstance(n, ast.Assign) and isinstance(n.targets[0], ast.Name):
+                env[n.targets[0].id] = n.value
+            elif isinstance(n, ast.AnnAssign) and isinstance(n.target, ast.Name) and n.value is not None:
+                env[n.target.id] = n.value
+            elif (
+                isinstance(n, ast.Assign) and isinstance(n.targets[0], ast.Tuple) and isinstance(n.value, ast.Tuple)
+                and len(n.targets[0].elts) == len(n.value.elts) and all(isinstance(t, ast.Name) for t in n.targets[0].elts)
+            ):
+                for t, v in zip(n.targets[0].elts, n.value.elts):
+                    env[t.id] = v
+        md = [
+            c for c in _space_calls(init, "MultiDiscrete")
+        ]
+        act = None
+        for n in own_nodes(init.node):
+            if isinstance(n, ast.Assign) and any(isinstance(t, ast.Attribute) and t.attr == "action_space" for t in n.targets):
+                act = n.value
+            elif isinstance(n, ast.AnnAssign) and isinstance(n.target, ast.Attribute) and n.target.attr == "action_space" and n.value is not None:
+                act = n.value
+        if not (isinstance(act, ast.Call) and (dotted(act.func) or "").endswith("MultiDiscrete")):
+            if not required:
+                return False
+            raise AnalysisError("SingleJobShopGraphEnv: action_space declaration not recognised")
+        nvec = _fill_value(act.args[0] if act.args else None, env)
+        start = None
+        for k in act.keywords:
+            if k.arg == "start":
+                start = _fill_value(k.value, env)
+            if k.arg == "nvec":
+                nvec = _fill_value(k.value, env)
+        if nvec is None or len(nvec) != 2:
+            raise AnalysisError("action_space: nvec is not a two-component literal")
+        if start is None:
+            start = [ast.Constant(0), ast.Constant(0)]
+        need = [
+            ("job", {1: 0}, {"num_jobs": 1, 1: -1}, "job ids 0..num_jobs-1"),
+            ("machine", {1: -1}, {"num_machines": 1, 1: -1}, "-1 (single-machine sentinel) and machine ids 0..num_machines-1"),
+        ]
+        for i, (what, lo_need, hi_need, txt) in enumerate(need):
+            nvs, sts = alternatives(nvec[i], env), alternatives(start[i], env)
+            if nvs is None or sts is None:
+                raise AnalysisError(f"action_space component {i}: not a (conditional) linear expression")
+            bad = None
+            shown = None
+            for nv in nvs:
+                for st in sts:
+                    if not set(st) <= {1}:
+                        raise AnalysisError("action_space start is symbolic")
+                    hi = sub({**nv, 1: nv.get(1, 0) + st.get(1, 0)}, {1: 1})
+                    shown = (st, hi)
+                    ok_lo = nonneg(sub(lo_need, st))
+                    ok_hi = nonneg(sub(hi, hi_need))
+                    if not (ok_lo and ok_hi) and bad is None:
+                        bad = (st, hi, ok_lo)
+            if bad is None:
+                st, hi = shown
+                chk.ok("R18.b", init.qualname, init.loc(act), f"{what} component [{fmt(st)}, {fmt(hi)}] ⊇ {txt}" + (" (all conditional alternatives)" if len(nvs) * len(sts) > 1 else ""))
+            else:
+                st, hi, ok_lo = bad
+                chk.violation(
+                    "R18.b", init, act,
+                    f"action space {what} component can be [{fmt(st)}, {fmt(hi)}] but legal decisions need {txt}: "
+                    + ("the lowest legal value is excluded" if not ok_lo else f"the legal {what} id {fmt(hi_need)} is not in the declared space"),
+                    loc=init.loc(act),
+                )
+
+        return True
+
+    init = ctx.norm.flat(single.methods["__init__"], depth=3)
+    judge_action_space(init)
+    # the multi environment either copies the inner environment's space (then
+    # the judgement above carries over) or declares its own
+    multi_ = repo.find_class("MultiJobShopGraphEnv")
+    if multi_.methods.get("__init__") is not None:
+        minit = ctx.norm.flat(multi_.methods["__init__"], depth=3)
+        own = [
+            n for n in own_nodes(minit.node)
+            if isinstance(n, (ast.Assign, ast.AnnAssign)) and n.value is not None
+            and any(isinstance(t, ast.Attribute) and t.attr == "action_space" for t in (n.targets if isinstance(n, ast.Assign) else [n.target]))
+        ]
+        if own and isinstance(own[-1].value, ast.Call) and (dotted(own[-1].value.func) or "").endswith("MultiDiscrete"):
+            judge_action_space(minit)
     # edge index space
     gos = _obs_space_builder(ctx, single)
     if not _space_calls(gos, "MultiDiscrete"):
@@ -452,6 +472,11 @@ def step_flags(ctx):
     chk, repo = ctx.chk, ctx.repo
     single = repo.find_class("SingleJobShopGraphEnv")
     step = single.methods.get("step")
+    if step is not None and not any(
+        isinstance(r, ast.Return) and isinstance(r.value, ast.Tuple) and len(r.value.elts) == 5 for r in own_nodes(step.node)
+    ):
+        # a template-method split: the private steps written out
+        step = ctx.norm.flat(step, depth=3)
     disp = repo.find_class("Dispatcher")
     dispatch = repo.need_method(disp, "dispatch")
     eng = ctx.engine(relevant=lambda e: e.kind == "call" and dispatch in (e.data.get("targets") or []), max_depth=1)
@@ -529,6 +554,11 @@ def _obs_space_builder(ctx, single):
                 m = ctx.repo.method(single, v.func.attr)
                 if m is not None:
                     return m
+            if isinstance(v, ast.Call) and isinstance(v.func, ast.Name):
+                # a function of the package (spaces built by a helper shared with the multi environment)
+                ts, _ = ctx.res.callees(h, v, single)
+                if len(ts) == 1 and ts[0].cls is None and not isinstance(ts[0].node, ast.Lambda):
+                    return ts[0]
             return h
     raise AnalysisError("SingleJobShopGraphEnv: no assignment of observation_space found")
 
@@ -557,6 +587,10 @@ def key_agreement(ctx):
     gos, go = _obs_space_builder(ctx, single), single.methods.get("get_observation")
     if go is None:
         raise AnalysisError("get_observation vanished")
+    if gos.cls is None and single.methods.get("__init__") is not None:
+        # built by a function of the package: judged where it is called (its
+        # parameters replaced by what the constructor passes)
+        gos = single.methods["__init__"]
 
     def keys(fi_raw):
         fi = ctx.norm.flat(fi_raw)
@@ -615,12 +649,20 @@ def _module_const(ctx, fi, e):
     return e
 
 
-def _fill_values(ctx, ff, f, pv):
+def _fill_values(ctx, ff, f, pv, _depth=0):
     """(default fill expr, removed-nodes fill expr) from the expression
     passed as padding_value: a defaultdict with an override, or a helper /
     conditional keyed on the removed-nodes key."""
     if pv is None:
         return None, None
+    # a hoisted argument / plain local: `_v = TABLE.get(key, D)` ... padding_value=_v
+    for _k in range(3):
+        if isinstance(pv, ast.Name):
+            ds = [d for d in ctx.flow.defs(ff).of(pv.id)]
+            if len(ds) == 1 and ds[0][0] == "value" and isinstance(ds[0][1], (ast.Call, ast.Subscript, ast.IfExp, ast.Name)):
+                pv = ds[0][1]
+                continue
+        break
     # (1) dict lookup
     if isinstance(pv, ast.Subscript) and isinstance(pv.value, ast.Name):
         dname = pv.value.id
@@ -683,6 +725,12 @@ def _fill_values(ctx, ff, f, pv):
         ts, _ = ctx.res.callees(ff, pv, ff.cls)
         if len(ts) == 1:
             h = ts[0]
+            hb = [x for x in h.node.body if not (isinstance(x, ast.Expr) and isinstance(x.value, ast.Constant))] if not isinstance(h.node, ast.Lambda) else []
+            if len(hb) == 1 and isinstance(hb[0], ast.Return) and hb[0].value is not None and not isinstance(hb[0].value, ast.Constant) and _depth < 3:
+                # a one-expression accessor (`return TABLE.get(key, DEFAULT)`): judged by what it returns
+                got = _fill_values(ctx, h, h, hb[0].value, _depth + 1)
+                if got != (None, None):
+                    return got
             default = mask = None
             for n in own_nodes(h.node):
                 if isinstance(n, ast.If) and len(n.body) == 1 and isinstance(n.body[0], ast.Return):
